@@ -437,6 +437,13 @@ class Translator:
         if op == 'freeze': return A(0)
         raise Unsupported('op ' + op + ': ' + vstr(v))
 
+    def odd_int_bytes(self, t):
+        if GetTypeKind(t) != TK['Integer']: return 0
+        w = GetIntTypeWidth(t)
+        if w in (1, 8, 16, 32, 64, 128): return 0
+        if w % 8: raise Unsupported('load/store of i%d' % w)
+        return w // 8
+
     def leaf_width(self, v):
         """size in bytes of the scalar leaves of the object an i8* value points into, when it is visibly a bitcast of a typed pointer
         to an aggregate whose leaves all have the same size; 1 otherwise"""
@@ -526,9 +533,17 @@ class Translator:
                     decls.append('%s %s_mem;' % (self.ctype(at), self.locals[ins]))
                     body.append('%s = &%s_mem;' % (self.locals[ins], self.locals[ins]))
                 elif op == 'load':
-                    body.append('%s = *%s;' % (self.locals[ins], self.val(ops[0])))
+                    nb = self.odd_int_bytes(t)
+                    if nb:   # i24/i40/i48/i56: exactly nb bytes are accessed (little endian), not the size of the C carrier type
+                        body.append('%s = %s;' % (self.locals[ins], ' | '.join('((%s)((u8*)%s)[%d] << %d)' % (ct, self.val(ops[0]), k, 8 * k) for k in range(nb))))
+                    else:
+                        body.append('%s = *%s;' % (self.locals[ins], self.val(ops[0])))
                 elif op == 'store':
-                    body.append('*%s = %s;' % (self.val(ops[1]), self.val(ops[0])))
+                    nb = self.odd_int_bytes(TypeOf(ops[0]))
+                    if nb:
+                        body.append(' '.join('((u8*)%s)[%d] = (u8)(%s >> %d);' % (self.val(ops[1]), k, self.val(ops[0]), 8 * k) for k in range(nb)))
+                    else:
+                        body.append('*%s = %s;' % (self.val(ops[1]), self.val(ops[0])))
                 elif op == 'br':
                     if IsConditional(ins):
                         body.append('if (%s) { %s } else { %s }' % (self.val(GetCondition(ins)), edge(b, GetSuccessor(ins, 0)), edge(b, GetSuccessor(ins, 1))))
